@@ -339,6 +339,7 @@ func main() {
 		if sc.SecondTimeout {
 			res.Dist("second_timeout")
 		}
+		res.Dist("input_collation=" + sc.Collation)
 		if sc.Kind == "switch" {
 			res.Dist(fmt.Sprintf("cases=%d", len(sc.Cases)))
 			res.Dist(fmt.Sprintf("matching=%d", min(exp.nMatching, 3)))
